@@ -10,8 +10,9 @@ CLK = "2024 3 15 10 20 30 400000"
 
 
 class Stream:
-    def __init__(self, name, lines, modes=("off",), oracles=(oracle_no_panic,), exhaustive=False):
+    def __init__(self, name, lines, modes=("off",), oracles=(oracle_no_panic,), exhaustive=False, spec=False):
         self.name, self.lines, self.modes, self.oracles, self.exhaustive = name, lines, modes, list(oracles), exhaustive
+        self.spec = spec      # also compare the crate with the independent Lean Spec (driver --spec)
 
 
 def rng_dates(op, stride=1, lo=DATE_MIN, hi=DATE_MAX):
@@ -408,14 +409,14 @@ def streams_for(pid, tier, rng):
         L = 4 if not thorough else 5
         S.append(Stream("all pictures up to length %d" % L,
                         ["@range 0 %d 1 %d F.try_new_idx %s %d %%" % (40 ** k - 1, BLK, hx(tg.ALPHABET40), k)
-                         for k in range(0, L + 1)], exhaustive=True))
-        S.append(Stream("random token sequences", picture_lines(rng, 40000 * scale, 40)))
+                         for k in range(0, L + 1)], exhaustive=True, spec=True))
+        S.append(Stream("random token sequences", picture_lines(rng, 40000 * scale, 40), spec=True))
         blanks = []
         for k in list(range(1, 40)) + [254, 255, 256, 257, 300, 511, 512, 513, 600]:
             blanks.append("F.try_new " + hx(" " * k))
             blanks.append("F.try_new " + hx("YYYY" + " " * k + "MM"))
             blanks.append("F.format TS 1234567890123456 %s -1" % hx("DD" + " " * k + "HH24"))
-        S.append(Stream("blank runs", blanks))
+        S.append(Stream("blank runs", blanks, spec=True))
         lines = []
         probe = 1234567890123456
         for _ in range(10000 * scale):
